@@ -1,1 +1,4 @@
 pub mod c01;
+pub mod c22;
+pub mod c23;
+pub mod c34;
